@@ -313,6 +313,9 @@ impl Bench {
             Ok(()) => " peer:ok".into(),
             Err(e) => {
                 self.peer_stopped = true;
+                if std::env::var("DV_DEBUG").is_ok() {
+                    eprintln!("peer import error: {}", e);
+                }
                 format!(" peer:err:{}", class(&e))
             }
         }
